@@ -158,13 +158,18 @@ def new_dir(ctx, tag):
 
 class Q(object):
     """string scalar '<v> <u>' of a generated tree (a value with explicit units)"""
-    __slots__ = ('v', 'u')
+    __slots__ = ('v', 'u', 'sci')
 
-    def __init__(self, v, u):
+    def __init__(self, v, u, sci=None):
         self.v = Fraction(v)
         self.u = u
+        self.sci = sci          # 1: 'm * 10^k u', 2: 'm*10^k u' (the only way the unit grammar writes a power of ten)
 
     def text(self):
+        if self.sci and self.v != 0:
+            k = math.floor(math.log10(abs(float(self.v))))
+            m = self.v / Fraction(10) ** k
+            return ('%s * 10^%d %s' if self.sci == 1 else '%s*10^%d %s') % (dec_text(m), k, self.u)
         return '%s %s' % (dec_text(self.v), self.u)
 
     def __repr__(self):
